@@ -333,6 +333,16 @@ theorem internalized_all_recognised : KinModel.Gen.internalized.all (fun r => !K
 theorem internalized_matches_model : KinModel.Gen.internalized = KinModel.Gen.modelDescent := by
   decide
 
+/-- **each of the nine add…ToSpec methods looks the name up in, creates, and stores into its OWN kind's map of
+`doc.Components`, and writes its own kind's `#/components/<kind>/` text** (regenerated on every run; the model's single
+`addCore` does exactly this for the cell's collection). A lookup in a neighbouring kind's map (seeded C16-r3m2) breaks it. -/
+theorem add_uses_own_kind_map : KinModel.Gen.internalizedAdd.all KinModel.Gen.addRowOK = true := by
+  decide
+
+/-- every add…ToSpec has exactly the steps the model's `addCore` has, in that order; all nine are there -/
+theorem add_steps_as_modelled : KinModel.Gen.addShapeOK KinModel.Gen.internalizedAdd = true := by
+  decide
+
 /-- **every field of the document types through which a reference position can be reached from `openapi3.T` is read by
 the descent of InternalizeRefs** — except `Parameter.Examples` (finding F-C16-7). The table is regenerated from the type
 declarations and from internalize_refs.go on every run: a new ref-bearing field the descent does not visit, or a visit
